@@ -259,6 +259,22 @@ Theorem hit_implies_same_question_store_get :
 Proof. exact store_get_hit_sound. Qed.
 Print Assumptions hit_implies_same_question_store_get.
 
+(* the resolver-internal route inside a request tree (Store.GetWithContext with the context the cache handed down):
+   whatever the OUTER client sent — CD=1, an ECS option — a hit comes from an entry admitted for the sub-query's own
+   question and CD partition, shared audience; a cut answers only a CD=0 sub-query of an unmarked tree *)
+Theorem hit_implies_same_question_store_get_tree :
+  forall (K : Type) (K_eqb : K -> K -> bool) (H : bytes -> K) (salt_fq salt_fz : K -> K) (s : store K) q cd bypass id,
+    store_get_tree K K_eqb H salt_fq salt_fz s q cd bypass = OHit id ->
+    exists e, e_id e = id /\ same_question e (q_name q) (q_type q) (q_class q) cd /\ e_scope e = None.
+Proof. exact store_get_tree_hit_sound. Qed.
+Print Assumptions hit_implies_same_question_store_get_tree.
+
+Theorem store_get_tree_cut_only_without_cd_and_marker :
+  forall (K : Type) (K_eqb : K -> K -> bool) (H : bytes -> K) (salt_fq salt_fz : K -> K) (s : store K) q cd bypass id,
+    store_get_tree K K_eqb H salt_fq salt_fz s q cd bypass = OCut id -> cd = false /\ bypass = false.
+Proof. exact store_get_tree_cut_only_plain. Qed.
+Print Assumptions store_get_tree_cut_only_without_cd_and_marker.
+
 (* a subtree cut never answers a CD or ECS request *)
 Theorem cut_hit_only_without_cd_and_ecs :
   forall (K : Type) (K_eqb : K -> K -> bool) (H : bytes -> K) (salt_fq salt_fz : K -> K) (s : store K) q cd has_ecs client id,
